@@ -65,7 +65,14 @@ def run_impl(prog):
     import networkx as nx
     from networkx.algorithms.dag import descendants, ancestors
     from zepid.causal.causalgraph.dag import DirectedAcyclicGraph, DAGError
-    d = DirectedAcyclicGraph(exposure='X', outcome='Y')
+    # node labels are arbitrary hashables: letters, or the integers a networkx generator / adjacency matrix gives
+    # (exposure 8, outcome 9, the others 0..7 -- 0 is a perfectly good node)
+    if (len(prog) + sum(len(o[-1]) if isinstance(o[-1], (list, tuple)) else 1 for o in prog)) % 3 == 1:
+        LABELS = [8, 9, 0, 1, 2, 3, 4, 5, 6, 7]
+    else:
+        LABELS = list(globals()['LABELS'])
+    IDX = {l: i for i, l in enumerate(LABELS)}
+    d = DirectedAcyclicGraph(exposure=LABELS[0], outcome=LABELS[1])
     trace, problems = [], []
     for o in prog:
         before_n, before_e = list(d.dag.nodes), list(d.dag.edges)
@@ -89,7 +96,7 @@ def run_impl(prog):
             ok = None
             problems.append(('call-raises-other', '%r raised %s: %s' % (o, type(e).__name__, str(e)[:80])))
         trace.append((ok, [IDX[n] for n in d.dag.nodes], [(IDX[u], IDX[v]) for u, v in d.dag.edges]))
-    res = {'trace': trace, 'problems': problems}
+    res = {'trace': trace, 'problems': problems, 'integer_labels': LABELS[0] == 8}
     try:
         d.calculate_adjustment_sets()
         if len(d.dag.edges) <= 5 and (len(prog) + len(d.dag.edges) + len(d.dag.nodes)) % 4 == 0:
